@@ -27,9 +27,30 @@ Theorem C10_next : forall r r' a, send_request r = (r', a) ->
   end.
 Proof. exact send_request_spec. Qed.
 
-(* the progress rule (an accepted block is followed by exactly one further request while blocks remain; the piece
-   completes exactly when the last outstanding block arrives) is decided on the real task by the correspondence
-   oracle step10; no Coq theorem over handle_piece histories yet *)
+(* the whole history of one assignment.  RxI plen r sent: the blocks asked for so far (`sent`, in order) followed by the
+   blocks not yet asked for are exactly the tiling of the piece, and whatever is outstanding has been asked.
+   It holds right after the assignment ... *)
+Theorem C10_assignment_invariant : forall cf int i plen r a, new_piece_request cf int i plen = (r, a) ->
+  RxI plen r (blocks_of i a) /\ rx_index r = i.
+Proof. exact RxI_new. Qed.
+
+(* ... and every answer of the peer (in any order, duplicated, withheld, for other pieces / offsets / sizes) either changes
+   nothing and asks nothing, or is accepted and followed by exactly one further request - the next block of the tiling -
+   while blocks remain unasked, keeping the invariant; the piece is completed exactly when the last outstanding block arrives
+   with nothing left to ask, and then the requests sent are the whole tiling: each block exactly once, no gap, no overlap. *)
+Theorem C10_answer : forall sha1 cf s r plen sent i b blk reply, h_rx s = Some r -> RxI plen r sent ->
+  match handle_piece sha1 cf s i b blk reply with
+  | HCont s' a =>
+      (is_requested r i b blk = false /\ s' = s /\ a = []) \/
+      (is_requested r i b blk = true /\
+       exists r', h_rx s' = Some r' /\ RxI plen r' (sent ++ blocks_of (rx_index r) a) /\ rx_index r' = rx_index r /\
+                  (match rx_left r with [] => a = [] | (b0, l0) :: _ => a = [ASend (Request (rx_index r) b0 l0)] end)) \/
+      (is_requested r i b blk = true /\ rx_left r = [] /\ sent = left_blocks plen /\ In (ACmd KPieceDone) a)
+  | HEnd _ a _ => is_requested r i b blk = true /\ rx_left r = [] /\ sent = left_blocks plen
+  | HPanic _ => False
+  end.
+Proof. exact piece_step. Qed.
+
 Example C10_nonvacuous : left_blocks 40000 = [(0, 16384); (16384, 16384); (32768, 7232)] /\ left_blocks 16384 = [(0, 16384)].
 Proof. vm_compute. split; reflexivity. Qed.
 
@@ -37,3 +58,5 @@ Print Assumptions C10_tiling.
 Print Assumptions C10_tiling_sum.
 Print Assumptions C10_assignment.
 Print Assumptions C10_next.
+Print Assumptions C10_assignment_invariant.
+Print Assumptions C10_answer.
